@@ -1041,10 +1041,77 @@ fn part_multifile(args: &RunArgs, rep: &Reporter) -> J {
     json!({"projects": projects.len(), "confirmed_valid_and_checked": confirmed.load(Ordering::Relaxed), "dropped_as_not_valid_per_reference": dropped.load(Ordering::Relaxed), "families": {"three-files": 288, "same-specifier-in-two-directories": 16, "diamond": projects.iter().filter(|p| p.0 == "diamond").count()}})
 }
 
+/// Valid definitions appended to the schema that share a name with something built in, across the two
+/// namespaces (types / directives). None of them changes the validity of a document that does not mention them.
+const NAMESAKES: [(&str, &str); 9] = [
+    ("none", ""),
+    ("enum-include", "enum include { A B }\n"),
+    ("input-skip", "input skip { a: Int }\n"),
+    ("scalar-deprecated", "scalar deprecated\n"),
+    ("type-specifiedBy", "type specifiedBy { a: Int }\n"),
+    ("directive-ID", "directive @ID on FIELD_DEFINITION\n"),
+    ("directives-named-like-the-other-built-in-scalars", "directive @String on FIELD\ndirective @Int on FIELD\ndirective @Boolean on FIELD\ndirective @Float on FIELD\n"),
+    ("scalar-nitrogql_ts_type", "scalar nitrogql_ts_type\n"),
+    ("all", "enum include { A B }\ninput skip { a: Int }\nscalar deprecated\ntype specifiedBy { a: Int }\ndirective @ID on FIELD_DEFINITION\ndirective @String on FIELD\ndirective @Int on FIELD\ndirective @Boolean on FIELD\ndirective @Float on FIELD\nscalar nitrogql_ts_type\n"),
+];
+
+/// The front end: every confirmed-valid document up to `max_dev` deviations as a file of its own in one project,
+/// under each schema of NAMESAKES and each line form; `check` through the CLI must exit 0 with no diagnostic.
+fn part_cli(args: &RunArgs, rep: &Reporter, max_dev: usize) -> J {
+    use crate::clilayer::CProj;
+    let (_, sch) = sem_schema();
+    let docs: Mutex<BTreeSet<String>> = Mutex::new(BTreeSet::new());
+    explore(&ExploreCfg { max_dev, threads: args.threads, budget: Duration::from_secs(600) }, |c: &mut Chooser| {
+        let doc = gen_doc(c, &sch, 2, true);
+        if valid_op::validate(&sch, &doc).is_empty() {
+            docs.lock().unwrap().insert(exec_text(&doc));
+        }
+    });
+    let docs: Vec<String> = docs.into_inner().unwrap().into_iter().collect();
+    let mut jobs = vec![];
+    for ni in 0..NAMESAKES.len() {
+        for form in 0..LINE_FORMS.len() {
+            jobs.push((ni, form));
+        }
+    }
+    let accepted = AtomicU64::new(0);
+    crate::explore::par_for(jobs.len(), args.threads, |ji| {
+        let (ni, form) = jobs[ji];
+        let (nname, extra) = NAMESAKES[ni];
+        let ops: Vec<(String, String)> = docs.iter().enumerate().map(|(i, t)| (format!("src/d{i:05}.graphql"), line_form(t, form))).collect();
+        let mut p = CProj::new(vec![("schema/s.graphql".to_string(), format!("{}\n{extra}", crate::gen_sem::SEM_SCHEMA))], ops);
+        p.resolvers_out = None;
+        p.server_out = None;
+        let dir = crate::cli::thread_dir("c04");
+        crate::cli::materialize(&dir, &p.project());
+        let cargs: Vec<String> = ["--config-file", "graphql.config.yaml", "--output-format", "json", "check"].iter().map(|s| s.to_string()).collect();
+        let r = crate::cli::run(&dir, &cargs, &[], Duration::from_secs(120));
+        let out: J = serde_json::from_str(r.stdout.trim()).unwrap_or(J::Null);
+        let errors = out["check"]["errors"].as_array().cloned().unwrap_or_default();
+        if r.code == Some(0) && errors.is_empty() && out["check"].is_object() {
+            accepted.fetch_add(1, Ordering::Relaxed);
+            return;
+        }
+        // name the first document that draws a diagnostic
+        let first = errors.iter().find_map(|e| e["file"]["path"].as_str().map(|s| s.to_string())).unwrap_or_default();
+        let idx = first.rsplit("/d").next().and_then(|s| s.strip_suffix(".graphql")).and_then(|s| s.parse::<usize>().ok());
+        let msg = errors.first().map(|e| e["message"].as_str().unwrap_or("").to_string()).unwrap_or_else(|| out["error"]["message"].as_str().unwrap_or("").to_string());
+        let cause = if msg.contains("is not defined") { "not-defined" } else if msg.contains("Duplicated") { "duplicated" } else { "other" };
+        rep.report(Violation {
+            key: format!("cli.rejects_valid:{cause}[{nname}/{}]", LINE_FORMS[form]),
+            what: format!("`nitrogql-cli check` exits with {:?} on a project of spec-valid documents (schema variant {nname}, line form {}): {}", r.code, LINE_FORMS[form], crate::cli::strip_ansi(&msg).chars().take(300).collect::<String>()),
+            case: json!({"part": "cli", "schema_appendix": extra, "line_form": LINE_FORMS[form], "document": idx.and_then(|i| docs.get(i)), "diagnostics": errors.iter().take(5).collect::<Vec<_>>(), "stderr": r.stderr.chars().take(600).collect::<String>()}),
+        });
+    });
+    crate::cli::cleanup("c04");
+    json!({"documents_per_project": docs.len(), "deviation_bound_of_the_documents": max_dev, "schema_variants": NAMESAKES.iter().map(|n| n.0).collect::<Vec<_>>(), "line_forms": LINE_FORMS, "projects": jobs.len(), "projects_accepted": accepted.load(Ordering::Relaxed)})
+}
+
 pub fn run04(args: &RunArgs) -> i32 {
     let rep = Reporter::new("C04", &args.tier);
     crate::util::install_hook();
     let multifile = part_multifile(args, &rep);
+    let front = part_cli(args, &rep, if args.quick() { 2 } else { 3 });
     let (dev, budget) = if args.quick() { (4, 45) } else { (5, 2400) };
     let j = run_c04(args, &rep, None, dev, budget);
     let sample = exec_text(&gen_doc(&mut Chooser::new(&crate::explore::Dev::from_picks(&[0, 0, 2, 0, 5, 1])), &sem_schema().1, 2, true));
@@ -1058,6 +1125,7 @@ pub fn run04(args: &RunArgs) -> i32 {
         "exhaustive": true,
         "detail": j,
         "multi_file_projects": multifile,
+        "front_end": front,
         "samples": [sample],
     });
     rep.finish(cov, vec!["R-VALID-OP (spec §5) decides validity".into(), "single documents, plus multi-file projects whose files are judged with the fragments a reference import closure brings in (the resolution itself is C13's business; here a valid project must stay free of diagnostics)".into()])
@@ -1099,24 +1167,38 @@ fn project_placements() -> Vec<(&'static str, Vec<(&'static str, &'static str)>,
     ]
 }
 
+/// how the operation files of a project are written to disk: as they are, or below a leading comment line with
+/// every line ended by a lone carriage return / by CR LF (all three are line terminators, spec 2.1.2)
+pub const LINE_FORMS: [&str; 3] = ["lf", "comment-first-cr-only", "comment-first-crlf"];
+pub fn line_form(text: &str, form: usize) -> String {
+    match form {
+        0 => text.to_string(),
+        1 => format!("# notes\n{text}").replace('\n', "\r"),
+        _ => format!("# notes\n{text}").replace('\n', "\r\n"),
+    }
+}
+
 fn part_projects(args: &RunArgs, rep: &Reporter) -> J {
     use crate::clilayer::{CProj, run_and_compare};
     let placements = project_placements();
-    let mut jobs: Vec<(usize, String, Option<&'static str>)> = vec![];
+    let mut jobs: Vec<(usize, String, Option<&'static str>, usize)> = vec![];
     for pi in 0..placements.len() {
-        for (rule, text) in PROJECT_FAULTS {
-            jobs.push((pi, text.to_string(), Some(rule)));
-        }
-        for text in PROJECT_CONTROLS {
-            jobs.push((pi, text.to_string(), None));
+        for form in 0..LINE_FORMS.len() {
+            for (rule, text) in PROJECT_FAULTS {
+                jobs.push((pi, text.to_string(), Some(rule), form));
+            }
+            for text in PROJECT_CONTROLS {
+                jobs.push((pi, text.to_string(), None, form));
+            }
         }
     }
     let accepted_controls = AtomicU64::new(0);
     let rejected_faults = AtomicU64::new(0);
     crate::explore::par_for(jobs.len(), args.threads, |ji| {
-        let (pi, text, rule) = &jobs[ji];
+        let (pi, text, rule, form) = &jobs[ji];
         let (pname, files, holder) = &placements[*pi];
-        let ops: Vec<(String, String)> = files.iter().map(|(p, t)| (p.to_string(), t.replace("@BAD@", text))).collect();
+        let pname = &if *form == 0 { pname.to_string() } else { format!("{pname}/{}", LINE_FORMS[*form]) };
+        let ops: Vec<(String, String)> = files.iter().map(|(p, t)| (p.to_string(), line_form(&t.replace("@BAD@", text), *form))).collect();
         let mut p = CProj::new(vec![("schema/s.graphql".to_string(), crate::gen_sem::SEM_SCHEMA.to_string())], ops);
         p.resolvers_out = None;
         p.server_out = None;
@@ -1152,12 +1234,12 @@ fn part_projects(args: &RunArgs, rep: &Reporter) -> J {
         }
     });
     crate::cli::cleanup("c03");
-    let controls = placements.len() * PROJECT_CONTROLS.len();
+    let controls = placements.len() * PROJECT_CONTROLS.len() * LINE_FORMS.len();
     if accepted_controls.load(Ordering::Relaxed) as usize != controls {
         // C04's business as a verdict; here it would make the faulty runs vacuous
         rep.report(Violation { key: "machinery.project_controls".into(), what: format!("only {} of {controls} control projects (valid definition at the same position) are accepted", accepted_controls.load(Ordering::Relaxed)), case: json!({}) });
     }
-    json!({"placements": placements.iter().map(|p| p.0).collect::<Vec<_>>(), "faulty_definitions": PROJECT_FAULTS.len(), "projects": jobs.len(), "faulty_projects_rejected_with_the_fault_located": rejected_faults.load(Ordering::Relaxed), "control_projects_accepted": accepted_controls.load(Ordering::Relaxed)})
+    json!({"placements": placements.iter().map(|p| p.0).collect::<Vec<_>>(), "line_forms_of_every_operation_file": LINE_FORMS, "faulty_definitions": PROJECT_FAULTS.len(), "projects": jobs.len(), "faulty_projects_rejected_with_the_fault_located": rejected_faults.load(Ordering::Relaxed), "control_projects_accepted": accepted_controls.load(Ordering::Relaxed)})
 }
 
 pub fn run03(args: &RunArgs) -> i32 {
